@@ -191,6 +191,10 @@ impl Drop for DtorBox {
 }
 
 thread_local! {
+    static PREBUILT: std::cell::RefCell<Option<(Event, u32)>> = const { std::cell::RefCell::new(None) };
+}
+
+thread_local! {
     pub static DTOR: std::cell::RefCell<Option<DtorBox>> = const { std::cell::RefCell::new(None) };
 }
 
@@ -277,6 +281,25 @@ pub fn exec(actor: &mut Actor, rc: &RunCtx, step: &Value) {
         call.insert("rpar".into(), json!(hex16(rc.rpar(geti("h")))));
     }
     shared().acc.lock().unwrap().insert(t, Acc::default());
+    // An Event is an ordinary value: it may be built long before it is attached.  The time it carries is
+    // the time of the add_event call (C18), so the plural spelling builds it here, before the call's
+    // clock readings (and before the pause that makes a wrong time visible).
+    if (op == "levent" || op == "sevent") && rc.variant(step["evt"]["name"].as_i64().unwrap_or(0), 3) == 2 {
+        if let Some((n, p)) = &evt {
+            let cc = Cell::new(0u32);
+            let p = p.clone();
+            let built = catch_unwind(AssertUnwindSafe(|| {
+                Event::new(n.clone()).with_properties(|| {
+                    cc.set(cc.get() + 1);
+                    let _ = SpanContext::current_local_parent();
+                    p
+                })
+            }));
+            if let Ok(ev) = built {
+                PREBUILT.with(|b| *b.borrow_mut() = Some((ev, cc.get())));
+            }
+        }
+    }
     let pause = shared().op_sleep_us.load(std::sync::atomic::Ordering::Relaxed);
     if pause > 0 {
         // make intervals long enough that a wrong time cannot hide in the tolerances (C18)
@@ -495,13 +518,21 @@ fn do_op(
                         #[allow(deprecated)]
                         Event::add_to_local_parent(n.clone(), || {
                             tick();
+                            // (a panic here is the call's: the closure must be able to use fastrace)
+                            let _ = SpanContext::current_local_parent();
                             p.into_iter().map(|(k, v)| (k.into(), v.into()))
                         });
                     }
-                    _ => LocalSpan::add_event(Event::new(n.clone()).with_properties(|| {
-                        tick();
-                        p
-                    })),
+                    _ => match PREBUILT.with(|b| b.borrow_mut().take()) {
+                        Some((ev, n)) => {
+                            cc.set(n);
+                            LocalSpan::add_event(ev);
+                        }
+                        None => LocalSpan::add_event(Event::new(n.clone()).with_properties(|| {
+                            tick();
+                            p
+                        })),
+                    },
                 }
             }
             out.insert("cc".into(), json!(cc.get()));
@@ -597,13 +628,21 @@ fn do_op(
                         #[allow(deprecated)]
                         Event::add_to_parent(n.clone(), &s, || {
                             tick();
+                            // (a panic here is the call's: the closure must be able to use fastrace)
+                            let _ = SpanContext::current_local_parent();
                             p.into_iter().map(|(k, v)| (k.into(), v.into()))
                         });
                     }
-                    _ => s.add_event(Event::new(n.clone()).with_properties(|| {
-                        tick();
-                        p
-                    })),
+                    _ => match PREBUILT.with(|b| b.borrow_mut().take()) {
+                        Some((ev, n)) => {
+                            cc.set(n);
+                            s.add_event(ev);
+                        }
+                        None => s.add_event(Event::new(n.clone()).with_properties(|| {
+                            tick();
+                            p
+                        })),
+                    },
                 }
                 out.insert("cc".into(), json!(cc.get()));
             }
